@@ -67,8 +67,9 @@ class SBytes:
         n = arr.size
         shape = arr.shape
         dt = arr.dtype
-        if dt.byteorder == ">":
-            raise Unsupported("big-endian tobytes")
+        big = (dt.byteorder == ">")
+        if big:
+            c.trust("ndarray.tobytes of a big-endian ('>') dtype: most significant byte first")
 
         def fn(i):
             if isz == 1:
@@ -76,7 +77,7 @@ class SBytes:
                 return _elem_to_uint(e, dt)
             q, r = c.divmod(i, isz) if isinstance(i, SInt) else divmod(i, isz)
             e = _elem_to_uint(arr.elem(*unravel(q, shape, order)), dt)
-            return _byte_of(e, r, isz)
+            return _byte_of(e, (isz - 1 - r) if big else r, isz)
         out = SBytes(n * isz, fn)
         out.packed = (arr, order)
         return out
@@ -223,7 +224,8 @@ def m_frombuffer(interp, buf, dtype=float, count=-1, offset=0):
         raise RaiseSig(ValueError("buffer size must be a multiple of element size"))
     fn = buf.fn
     packed = buf.packed
-    if packed is not None and packed[0].dtype.itemsize == isz and packed[0].dtype.kind == dt.kind:
+    if packed is not None and packed[0].dtype.itemsize == isz and packed[0].dtype.kind == dt.kind \
+            and (isz == 1 or (packed[0].dtype.byteorder == ">") == (dt.byteorder == ">")):
         # bytes produced by tobytes() of an array with the same item size: element k of the result
         # is element k (in tobytes order) of that array -- by lemma:le-bytes-roundtrip
         # (compose(bytes(e)) == e), proved separately for each item size.
@@ -233,6 +235,9 @@ def m_frombuffer(interp, buf, dtype=float, count=-1, offset=0):
         def elem_packed(i):
             return src.elem(*unravel(i, src.shape, order))
         return SArr.from_fn(elem_packed, (q,), dt, writeable=False)
+
+    if dt.byteorder == ">" and isz > 1:
+        raise Unsupported("np.frombuffer with a big-endian dtype")
 
     def elem(i):
         u = le_compose(fn, i * isz, isz) if isz > 1 else fn(i)
